@@ -93,6 +93,10 @@ ImportExport(cd) == CanImport(Export(cd)) /\ Import(Export(cd)) = cd
 SizesOK(cd) == /\ NumWords(cd) = Len(Export(cd))
                /\ (IsEmpty(cd) <=> Export(cd) = <<>>)
                /\ (IsBinary(cd) => NumValidBits(cd) = W * Len(ExportBinary(cd)))
+\* C07: encoding only ever appends to bulk, so the coder at an earlier symbol boundary is (state_k, prefix of bulk of
+\* length pos_k): seeking to a recorded (pos, state) puts a decoder exactly into that earlier coder.
+AppendOnly(cd) == \A P \in Precisions : \A cp \in Slots(P) :
+    LET e == AnsEnc(cd, P, cp[1], cp[2]) IN SubSeq(e.bulk, 1, Len(cd.bulk)) = cd.bulk
 \* C12: per-step potential lemma in integer form.  With s1 the state after the optional
 \* flush:  state' * p < (s1 + p) * 2^P   (the coder's value grows by at most 2^P/p (1+p/s1))
 \* and if the coder holds any word (bulk # <<>> after the step) then s1 >= p * 2^(S-W-P),
